@@ -69,9 +69,12 @@ fn ctx_for<B: Fld>(n: usize, num_assertions: usize) -> AirContext<B> {
 /// every assertion must be represented by exactly one constraint, in a group whose divisor vanishes on exactly
 /// the steps the assertion names, and the constraint must accept the asserted values there
 fn groups_ok<B: Fld>(bc: &BoundaryConstraints<B>, n: usize, asserted: &[(usize, &Kind)]) -> Result<(), String> {
+    groups_ok_in::<B>(bc.main_constraints(), n, asserted)
+}
+
+fn groups_ok_in<B: Fld>(groups: &[air::BoundaryConstraintGroup<B, B>], n: usize, asserted: &[(usize, &Kind)]) -> Result<(), String> {
     let p = B::P;
     let g = root_of_unity::<B>(n.ilog2());
-    let groups = bc.main_constraints();
     let total: usize = groups.iter().map(|g| g.constraints().len()).sum();
     if total != asserted.len() {
         return Err(format!("{} constraints built for {} assertions", total, asserted.len()));
@@ -96,6 +99,14 @@ fn groups_ok<B: Fld>(bc: &BoundaryConstraints<B>, n: usize, asserted: &[(usize, 
         }
     }
     Ok(())
+}
+
+/// context of a two-segment trace (2 main columns, 2 auxiliary columns) for the given assertion counts
+fn ctx_multi<B: Fld>(n: usize) -> impl Fn(usize, usize) -> AirContext<B> {
+    move |num_main: usize, num_aux: usize| {
+        let opts = ProofOptions::new(4, 8, 0, FieldExtension::None, 4, 7);
+        AirContext::new_multi_segment(TraceInfo::new_multi_segment(2, 2, 1, n, vec![]), vec![TransitionConstraintDegree::new(2)], vec![TransitionConstraintDegree::new(1)], num_main, num_aux, None, opts)
+    }
 }
 
 fn c16_subs<B: Fld>(run: &Arc<Run>) -> Vec<Arc<dyn Sub>> {
@@ -344,6 +355,27 @@ fn c16_subs<B: Fld>(run: &Arc<Run>) -> Vec<Arc<dyn Sub>> {
                                 }
                             },
                             Err(pr) => out.violation(format!("{}: assertions on different columns are refused ({})", B::NAME, pr.class()), d()),
+                        }
+                        // the auxiliary segment: its assertions outnumber, then are outnumbered by, the main ones; every
+                        // one of them must still become a constraint under its own divisor
+                        if !common {
+                            let mctx = ctx_multi::<B>(n);
+                            for (mains, auxs) in [(vec![(0usize, ka)], vec![(0usize, kb), (1, ka)]), (vec![(0, ka), (1, kb)], vec![(1usize, kb)])] {
+                                let ma: Vec<Assertion<B>> = mains.iter().map(|(c, k)| k.build::<B>(*c)).collect();
+                                let aa: Vec<Assertion<B>> = auxs.iter().map(|(c, k)| k.build::<B>(*c)).collect();
+                                let coeffs = vec![B::ONE; ma.len() + aa.len()];
+                                match pan::catch(|| BoundaryConstraints::<B>::new(&mctx(ma.len(), aa.len()), ma.clone(), aa.clone(), &coeffs)) {
+                                    Ok(bc) => {
+                                        if let Err(why) = groups_ok_in::<B>(bc.main_constraints(), n, &mains) {
+                                            out.violation(format!("{}: main assertions next to auxiliary ones: {}", B::NAME, why), d());
+                                        }
+                                        if let Err(why) = groups_ok_in::<B>(bc.aux_constraints(), n, &auxs) {
+                                            out.violation(format!("{}: auxiliary assertions ({} auxiliary, {} main): {}", B::NAME, aa.len(), ma.len(), why), d());
+                                        }
+                                    },
+                                    Err(pr) => out.violation(format!("{}: well-formed main and auxiliary assertions are refused ({})", B::NAME, pr.class()), d()),
+                                }
+                            }
                         }
                     }
                 }
